@@ -37,6 +37,34 @@ def res_from_graph(nm, ed, rn, blen=0.3):
             "constraints": [], "angles": [], "impropers": [], "vs": []}
 
 
+def res_from_content(ct, blen=0.3):
+    """residue definition of an exported content: edges are bonds; vsd = virtual-site definitions (indices into nm, rational parameters)"""
+    res = res_from_graph(ct["nm"], ct["ed"], ct["rn"], blen)
+    for d in ct.get("vsd") or []:
+        sec, func = SECTION[d["kind"]]
+        res["atypes"][d["site"] - 1] = "VS"
+        res["vs"].append([sec, [ct["nm"][d["site"] - 1]] + [ct["nm"][i - 1] for i in d["from"]], [func] + [p[0] / p[1] for p in d["p"]]])
+    if ct.get("settles"):
+        res["settles"] = [ct["nm"][0], 0.1, 0.16]
+    return res
+
+
+def vs_state(ct, t):
+    """where the virtual sites of template t are: "none" (no sites), "constructed" (every site within 1e-6 nm of the GROMACS construction
+    from its defining atoms in the same template, independent formulas of geom_monitor), "initial" otherwise"""
+    if not ct.get("vsd"):
+        return "none"
+    for d in ct["vsd"]:
+        sec, func = SECTION[d["kind"]]
+        try:
+            exp = gm.construct(sec, func, [np.asarray(t[ct["nm"][i - 1]], float) for i in d["from"]], [p[0] / p[1] for p in d["p"]])
+            if not np.abs(exp - np.asarray(t[ct["nm"][d["site"] - 1]], float)).max() <= 1e-6:
+                return "initial"
+        except Exception:
+            return "initial"
+    return "constructed"
+
+
 def node_hashes(top):
     """[[hash of residue i of molecule m]]"""
     return [[str(mm.nodes[n].get("template")) for n in mm.nodes] for mm in top.molecules]
@@ -153,7 +181,7 @@ def render_prec_case(case, wd):
         if m and keys == case["sys"][m - 1]:
             mols[-1][1] += 1          # the same molecule again: a second INSTANCE of one moleculetype (otherwise one moleculetype each)
             continue
-        residues = [res_from_graph(content[k]["nm"], content[k]["ed"], content[k]["rn"]) for k in keys]
+        residues = [res_from_content(content[k]) for k in keys]
         mts.append(tu.molecule_from_residues("M%d" % (m + 1), residues, [(i, i + 1) for i in range(len(keys) - 1)]))
         mols.append(["M%d" % (m + 1), 1])
     entries = []
@@ -193,7 +221,7 @@ def project_prec(case, top):
         t = tm.get(h)
         n = len(ct["nm"])
         if t is None or sorted(t) != sorted(ct["nm"]):
-            out[k] = {"tsrc": "missing", "vsrc": "?", "v": 0}
+            out[k] = {"tsrc": "missing", "vsrc": "?", "v": 0, "vs": "?"}
             continue
         u = np.array(ct["u"], float) * H
         user = u - u.mean(axis=0)
@@ -208,7 +236,7 @@ def project_prec(case, top):
             vsrc, v = "user", int(round(float(vol) * 1000))
         else:
             vsrc, v = "computed", 0
-        out[k] = {"tsrc": tsrc, "vsrc": vsrc, "v": v}
+        out[k] = {"tsrc": tsrc, "vsrc": vsrc, "v": v, "vs": "user" if tsrc == "user" else vs_state(ct, t)}
 
     def user_coords(m, i, names):
         ct = content[case["sys"][m][i]]
@@ -218,7 +246,11 @@ def project_prec(case, top):
         u = u - u.mean(axis=0)
         return [np.array([u[ct["nm"].index(a)] for a in names])]
     if len(top.molecules) == len(case["sys"]):
-        held, sizeok = held_view(top, uservals, user_coords, lambda m, i, names: [tu.ATOMTYPES["P"]] * len(names))
+        def radii(m, i, names):
+            ct = content[case["sys"][m][i]]
+            sites = {ct["nm"][d["site"] - 1] for d in ct.get("vsd") or []}
+            return [tu.ATOMTYPES["VS" if a in sites else "P"] for a in names]
+        held, sizeok = held_view(top, uservals, user_coords, radii)
         out["#held"], out["#sizeok"] = held, sizeok
     return out, problems
 
@@ -238,7 +270,7 @@ def run_prec_case(case, wd):
 
 
 def expected_proj(case):
-    exp = {k: {"tsrc": v["tsrc"], "vsrc": v["vsrc"], "v": v["v"]} for k, v in case["keys"].items()}
+    exp = {k: {"tsrc": v["tsrc"], "vsrc": v["vsrc"], "v": v["v"], "vs": v["vs"]} for k, v in case["keys"].items()}
     exp["#held"] = [[int(x) for x in row] for row in case["held"]]
     exp["#sizeok"] = [[bool(x) for x in row] for row in case["sizeok"]]
     return exp
@@ -495,6 +527,7 @@ class TRecorder:
         rec = {"hash": h, "names_ok": call is not None, "cog0": bool(np.abs(np.mean(list(t.values()), axis=0)).max() <= TOL),
                "size_pos": bool(size is not None and np.isfinite(size) and size > 0), "vs_ok": True, "equiv_ok": True, "targets_ok": True,
                "raw": {"size": None if size is None else float(size), "success": None, "worst": {}}}
+        rec["vs"] = "none"
         if call is None:
             rec["raw"]["why"] = "no optimize_geometry result matches the stored template"
             return rec
@@ -528,6 +561,7 @@ class TRecorder:
                 if not edev <= 1e-8:
                     rec["equiv_ok"] = False
         rec["raw"]["nvs"] = nvs
+        rec["vs"] = "none" if not nvs else ("constructed" if rec["vs_ok"] else "initial")
         if call["success"]:
             for it in call["types"]:
                 for inter in block.interactions.get(it, []):
@@ -591,6 +625,13 @@ def random_case(sd):
             large.add(len(types))
             types.append(relist(rng2, big))
     nobld = bool(rng2.random() < 0.2)
+    # round 5: a residue with no bond, constraint, angle or improper of its own - only a virtual-site definition (every kind, sometimes
+    # [ settles ]); the minimiser has nothing to do for it.  Own atom names (Q*, W1) and residue name; no [ template ] is supplied for it.
+    rng3 = np.random.default_rng([sd, 5])
+    vsonly = set()
+    if rng3.random() < 0.35:
+        vsonly.add(len(types))
+        types.append(tu.vs_only_residue(rng3, "RW", kind=int(sd % len(tu.VS_ONLY_KINDS)) if rng3.random() < 0.5 else None))
     tids = ["s%dt%d" % (sd, i) for i in range(len(types))]
     moltypes, mols, node_types = [], [], []
     for m in range(int(rng.integers(1, 4))):
@@ -598,6 +639,9 @@ def random_case(sd):
         pick = [int(rng.integers(0, len(types))) for _ in range(nres)]
         if large and m == 0 and not (set(pick) & large):
             pick[int(rng2.integers(0, nres))] = min(large)            # a large type that exists is used
+        if vsonly and m == 0 and not (set(pick) & vsonly):
+            free = [j for j in range(nres) if pick[j] not in large] or [0]
+            pick[free[int(rng3.integers(0, len(free)))]] = min(vsonly)
         edges = [(int(rng.integers(0, i)), i) for i in range(1, nres)]
         moltypes.append(tu.molecule_from_residues("M%d" % m, [types[i] for i in pick], edges, rng))
         cnt = int(rng.integers(1, 3))
@@ -608,7 +652,7 @@ def random_case(sd):
     order = [int(i) for i in rng.permutation(len(types))]
     for i in order:
         cn = canon_py(types[i])
-        if cn not in done_c and (rng.random() < 0.45 or (i in large and rng2.random() < 0.6)):
+        if cn not in done_c and (rng.random() < 0.45 or (i in large and rng2.random() < 0.6)) and i not in vsonly:
             done_c.add(cn)
             res = relist(rng, types[i]) if rng.random() < 0.5 else types[i]
             coords = [[round(float(x), 3) for x in rng.uniform(-0.4, 0.4, size=3)] for _ in res["names"]]
@@ -626,13 +670,14 @@ def random_case(sd):
                 entries.insert(0, ("volumes", [[rn, v / 1000.0]]))
                 bld.insert(0, {"e": "V", "rn": rn, "v": v})
     content = {tid: {"rn": r["resname"], "nm": r["names"],
-                     "ed": [[r["names"].index(a) + 1, r["names"].index(b) + 1] for a, b, _ in r["bonds"] + r["constraints"]]}
+                     "ed": [[r["names"].index(a) + 1, r["names"].index(b) + 1] for a, b, _ in r["bonds"] + r["constraints"]],
+                     "hasvs": bool(r["vs"]), "bonded": bool(r["bonds"] or r["constraints"] or r["angles"] or r["impropers"])}
                for tid, r in zip(tids, types)}
     if nobld:
         entries, bld = [], []
     return {"seed": sd, "system": {"atomtypes": tu.ATOMTYPES, "moltypes": moltypes, "molecules": mols}, "entries": entries, "bld": bld,
             "types": tids, "content": content, "sys": node_types, "skip_filter": bool(rng.random() < 0.3), "nobld": nobld,
-            "resdefs": dict(zip(tids, types)), "large": sorted(tids[i] for i in large)}
+            "resdefs": dict(zip(tids, types)), "large": sorted(tids[i] for i in large), "vsonly": sorted(tids[i] for i in vsonly)}
 
 
 def _trace_run(arg):
@@ -671,7 +716,7 @@ def _trace_run(arg):
             "trace": {"types": case["types"], "sys": case["sys"], "nobld": case["nobld"],
                       "bld": [{"e": b["e"], "t": b.get("t", ""), "rn": b["rn"], "v": b.get("v", 0)} for b in case["bld"]],
                       "events": rec.events},
-            "content": case["content"], "raw": raws, "large": case["large"]}
+            "content": case["content"], "raw": raws, "large": case["large"], "vsonly": case["vsonly"]}
 
 
 def vs_samples(rng, n):
@@ -799,7 +844,7 @@ def validate(ck, runs, vs, name, count=True, opt=()):
     for r in runs:
         content.update(r["content"])
     if not content:
-        content = {"none": {"rn": "RX", "nm": ["A"], "ed": []}}
+        content = {"none": {"rn": "RX", "nm": ["A"], "ed": [], "hasvs": False, "bonded": False}}
     doc = {"content": content, "traces": [r["trace"] for r in runs], "vs": [{k: s[k] for k in ("kind", "matches_gmx", "equivariant")} for s in vs],
            "opt": [{k: o[k] for k in ("success", "targets_ok")} for o in opt]}
     f = wd / "traces.json"
@@ -854,8 +899,8 @@ def binding_demo(ck, runs, rejected, vs, badvs):
 
 _SYN_G = {"op": "G", "vols": [["RS", "user", 500, True], ["h1", "user", 500, True]], "tmpl": [["h1", "generated"]],
           "hmap": [["h1", "syn0"]], "mol": 1, "tags": ["h1"], "held": [], "sizeok": [],
-          "gen": [{"hash": "h1", "names_ok": True, "cog0": True, "size_pos": True, "vs_ok": True, "equiv_ok": True, "targets_ok": True}]}
-SYNTHETIC = {"seed": -1, "content": {"syn0": {"rn": "RS", "nm": ["A", "B"], "ed": [[1, 2]]}}, "raw": [[], [], [{}], [], []], "large": [],
+          "gen": [{"hash": "h1", "names_ok": True, "cog0": True, "size_pos": True, "vs_ok": True, "equiv_ok": True, "targets_ok": True, "vs": "none"}]}
+SYNTHETIC = {"seed": -1, "content": {"syn0": {"rn": "RS", "nm": ["A", "B"], "ed": [[1, 2]], "hasvs": False, "bonded": True}}, "raw": [[], [], [{}], [], []], "large": [], "vsonly": [],
              "trace": {"types": ["syn0"], "sys": [["syn0"], ["syn0"]], "nobld": False, "bld": [{"e": "V", "t": "", "rn": "RS", "v": 500}],
                        "events": [{"op": "V", "vols": [["RS", "user", 500, True]], "tmpl": [], "hmap": [], "mol": 0, "tags": [], "gen": [], "held": [], "sizeok": []},
                                   {"op": "F", "vols": [["RS", "user", 500, True]], "tmpl": [], "hmap": [], "mol": 0, "tags": [], "gen": [], "held": [], "sizeok": []},
@@ -885,9 +930,9 @@ def run(tier):
                "non-trivial when the build file is not empty or two molecules share a residue; the same for the instance with residues of 16 and 18 atoms "
                "(templates and a size supplied for them; alternately with -skip_filter where permitted); (c) the virtual-site cases of TpVS. "
                "I->S: one trace per seeded random system (2-5 residue types of 1-9 atoms, rings, branches, all virtual-site kinds, relisted residues, "
-               "in a third of the runs a residue of 16-24 atoms, templates / volumes in random order, a fifth of the runs without any build file, "
+               "in a third of the runs a residue of 16-24 atoms, in a third a residue that consists of a virtual-site definition only (all kinds, [ settles ]), templates / volumes in random order, a fifth of the runs without any build file, "
                "with and without -skip_filter); the last event compares what every residue is built from across the molecules")
-    ck.assumptions = ["residues have pairwise distinct atom names; residues are connected through bonds/constraints",
+    ck.assumptions = ["residues have pairwise distinct atom names; residues are connected through bonds, constraints or virtual-site definitions",
                       "no ties: the content of a residue determines its residue name, at most one [ template ] per content and one [ volumes ] line per name",
                       "virtual sites are constructed from real atoms (not from other virtual sites); residue definitions are geometrically feasible",
                       "exact part on a 0.25 nm lattice with rational parameters (TLC), compared at 1e-9; kinds 3fd, 3fad, 4fdn, centre of geometry, size > 0, "
@@ -906,6 +951,7 @@ def run(tier):
             ("MC_Templates", "Tp_dev_VolLost.cfg", "UserVolumeWins", "repaired finding F21 %s (size by residue name deleted at the end of the build file)" % SIG_VOL),
             ("MC_Templates", "Tp_dev_KeySites.cfg", "UserTemplateWins", "the key of a large residue differs between the build-file parser and the annotation of the residues"),
             ("MC_Templates", "Tp_dev_ProcForgets.cfg", "OneTemplatePerKey", "GenerateTemplates keeps no memory across molecules (same key, other template per molecule)"),
+            ("MC_Templates", "Tp_dev_SkipVS.cfg", "VSConstructed", "virtual sites only constructed as part of a minimisation that has targets (residue without bonded terms of its own)"),
             ("TpGroup", "Tp_dev_ByResname.cfg", "GroupingLaw", "grouping by residue name only"),
             ("TpVS", "Tp_dev_VSWeightSwap.cfg", "VSLaw", "virtual-site weights swapped")]
     # quick: the export run checks every law of Templates.tla on its instance, so it doubles as the model run
@@ -913,6 +959,7 @@ def run(tier):
              ("export", ("MC_Templates", "Tp_export.cfg", {"workers": 3})),
              ("export_code", ("MC_Templates", "Tp_export_code.cfg", {"workers": 2})),
              ("export_large", ("MC_Templates", "Tp_export_large.cfg", {"workers": 2})),
+             ("export_vsonly", ("MC_Templates", "Tp_export_vsonly.cfg", {"workers": 1})),
              ("vs", ("TpVS", "Tp_vs.cfg", {"workers": 1}))]
     if not quick:
         named.append(("full", ("MC_Templates", "Templates_full.cfg", {"workers": 4, "timeout": 3000})))
@@ -920,9 +967,10 @@ def run(tier):
     out = c.tlc_many([j for _, j in named], workers_each=2)
     res = {n: r for (n, _), r in zip(named, out)}
     ck.model_must_hold(res["group"], "GroupingLaw/NamesLaw/CanonLaw/OrderLaw")
-    LAWS = "Tagged/UserTemplateWins/UserVolumeWins/UserTemplateUnchanged/KeySitesAgree/GeneratedOnce/OneTemplatePerKey/SizeBelongs/UserSticks"
+    LAWS = "Tagged/UserTemplateWins/UserVolumeWins/UserTemplateUnchanged/KeySitesAgree/GeneratedOnce/OneTemplatePerKey/SizeBelongs/VSConstructed/UserSticks"
     ck.model_must_hold(res["export"], LAWS + " + export")
     ck.model_must_hold(res["export_large"], LAWS + " + export (residues of 16 and 18 atoms)")
+    ck.model_must_hold(res["export_vsonly"], LAWS + " + export (residues without bonded terms of their own, only virtual-site definitions)")
     ck.add_tlc(res["export_code"])      # sensitivity export (DevVolLost): only selects and labels the behaviours in which the repaired defect F21 would show
     ck.model_must_hold(res["vs"], "VSLaw/Equivariant/Handed")
     if not quick:
@@ -981,6 +1029,13 @@ def run(tier):
         lsel += _stratified([x for x in lcases if large_keys(x, False)], lambda x: (x["nobld"], len(x["sys"])), rng, 1)
     else:
         lsel = lcases
+    # residues whose only interactions are virtual-site definitions (kinds 2, 3, 3out, n; [ settles ]): all behaviours, both tiers
+    vcases_only = res["export_vsonly"].cases()
+    nvsonly = sum(1 for x in vcases_only for k in x["keys"] if x["content"][k]["hasvs"] and not x["content"][k]["bonded"])
+    if not nvsonly:
+        raise c.MachineryError("the export of residues without bonded terms is empty")
+    ck.extra["precedence_behaviours_decided_by_TLC"] += len(vcases_only)
+    lsel = lsel + vcases_only
     for i, x in enumerate(psel + lsel):
         x["skip_filter"] = bool(i % 2 and may_skip_filter(x))
     nlarge_user = sum(len(large_keys(x, True)) for x in lsel)
@@ -988,6 +1043,7 @@ def run(tier):
     ck.extra["precedence_behaviours_replayed"] = len(psel) + len(lsel)
     ck.extra["precedence_replay_classes"] = {"large residue mapped to a supplied template": nlarge_user, "large residue generated": sum(len(large_keys(x, False)) for x in lsel),
                                              "no build file, two molecules sharing a residue": nshare,
+                                             "generated templates of residues with virtual sites and no bonded term": nvsonly,
                                              "with -skip_filter": sum(1 for x in psel + lsel if x["skip_filter"])}
     if not nlarge_user or not nshare:
         raise c.MachineryError("vacuous precedence replay: %s" % ck.extra["precedence_replay_classes"])
@@ -1037,7 +1093,8 @@ def run(tier):
     badvs = [i for i in badvs if i > 0]
     stats = {"events": 0, "generated": 0, "optimised": 0, "with_vs": 0, "user_templates": 0, "user_volumes": 0, "shared": 0,
              "runs_with_large_residue": 0, "large_residue_with_supplied_template": 0, "runs_without_build_file": 0,
-             "no_build_file_and_molecules_sharing_a_key": 0, "residues_compared_across_molecules": 0}
+             "no_build_file_and_molecules_sharing_a_key": 0, "residues_compared_across_molecules": 0,
+             "generated_templates_with_vs_and_no_bonded_term": 0}
     for r in runs:
         for ev, raws in zip(r["trace"]["events"], r["raw"]):
             stats["events"] += 1
@@ -1052,6 +1109,8 @@ def run(tier):
         hs = [h for ev in r["trace"]["events"] for h in ev["tags"]]
         stats["shared"] += 1 if len(set(hs)) < len(hs) else 0
         stats["runs_with_large_residue"] += 1 if r["large"] else 0
+        vh = {p_[0] for ev in r["trace"]["events"] for p_ in ev["hmap"] if p_[1] in r["vsonly"]}
+        stats["generated_templates_with_vs_and_no_bonded_term"] += sum(1 for ev in r["trace"]["events"] for g in ev["gen"] if g["hash"] in vh and g["vs"] == "constructed")
         stats["large_residue_with_supplied_template"] += 1 if any(b["e"] == "T" and b["t"] in r["large"] for b in r["trace"]["bld"]) else 0
         stats["runs_without_build_file"] += 1 if r["trace"]["nobld"] else 0
         per_mol = [set(ev["tags"]) for ev in r["trace"]["events"] if ev["op"] == "G"]
@@ -1062,7 +1121,8 @@ def run(tier):
     ck.extra["trace_stats"] = dict(stats, construct_vs_samples=len(vs))
     ck.actions.update({"events(real)": stats["events"], "templates generated(real)": stats["generated"]})
     vacuous = not (stats["generated"] and stats["optimised"] and stats["with_vs"] and stats["user_templates"] and stats["user_volumes"] and stats["shared"]
-                   and stats["large_residue_with_supplied_template"] and stats["no_build_file_and_molecules_sharing_a_key"])
+                   and stats["large_residue_with_supplied_template"] and stats["no_build_file_and_molecules_sharing_a_key"]
+                   and stats["generated_templates_with_vs_and_no_bonded_term"])
     sample_run = next((r for r in runs if any(ev["gen"] for ev in r["trace"]["events"]) and r["trace"]["bld"]), runs[0])
     ck.sample({"I->S trace": {"bld": sample_run["trace"]["bld"], "sys": sample_run["trace"]["sys"],
                               "events": [{k: ev[k] for k in ("op", "vols", "tmpl", "tags", "gen", "held")} for ev in sample_run["trace"]["events"][:4] + sample_run["trace"]["events"][-1:]]}})
